@@ -472,6 +472,9 @@ func (es *SearchEngineState) MATCHVAR(name string) {
 	} else if value.getType() == ValueHashMapType {
 		// TODO add syntax for indexing hash maps but also I want something a bit better than just failing here
 		es.BACKTRACK()
+	} else if value.String().Value == "" {
+		// a reference to an empty binding matches the empty string
+		es.NEXT()
 	} else {
 		es.MATCH(value.String().Value, false, false)
 	}
